@@ -74,7 +74,8 @@ def generate(seed, tier):
         elif x < 0.97:
             ops.append({'op': 'duplicate_key', 'direction': rng.choice(['OUTGOING', 'OUTGOING', 'INCOMING']), 'n': rng.randrange(100)})
         else:
-            ops.append({'op': 'write_peers_crash', 'addr': rng.randrange(n_addr), 'preload': rng.choice([0, 1, 5, 99, 100, 130])})
+            ops.append({'op': 'write_peers_crash', 'addr': rng.randrange(n_addr), 'preload': rng.choice([0, 1, 5, 99, 100, 130]),
+                        'damaged': rng.choice([None, None, 'torn', 'garbage', 'empty'])})
     if long_run:
         ops += [{'op': 'tick', 'dt': 7 * 86_400_000} for _ in range(10)]
     return {'config': {'addrs': addrs, 'long': long_run, 'slow': {'long': 1800, 'medium': 30, 'fine': 1}[scale], 'scale': scale,
@@ -357,16 +358,34 @@ def execute(script):
                     pre = [['10.9.%d.%d' % (j // 250, j % 250), 2412, 'OUTGOING', '2023-01-01T00:00:00Z'] for j in range(op.get('preload', 0))]
                     if pre:
                         fs.files['peers.json'] = json.dumps(pre).encode()
+                    damaged = None
+                    if op.get('damaged') and 'peers.json' in fs.files:
+                        # what an earlier session may leave behind (two processes writing the same .new file, a hand edit, a bad
+                        # sector): a peer file that is not JSON; the next greeting replaces it by a list of that one peer
+                        whole = fs.files['peers.json']
+                        damaged = {'torn': whole[:max(1, len(whole) // 2)], 'empty': b'',
+                                   'garbage': b'\x00\xff{]' + whole[:7]}[op['damaged']]
+                        fs.files['peers.json'] = damaged
+                        res.bump('fault:damaged_peer_file_on_disk')
                     old_snap = fs.snapshot()
-                    old_list = json.loads(old_snap['peers.json'].decode()) if 'peers.json' in old_snap else None
+                    old_list = (json.loads(old_snap['peers.json'].decode()) if 'peers.json' in old_snap else None) if damaged is None else None
                     peer = rp.RemotePeer(a['host'], a['port'], 'OUTGOING', None, 0)
                     d = di.DiskInterface()
                     fs.crash_at = None
                     fs.reset_boundaries()
-                    d.write_peers(peer)
+                    try:
+                        with env.quiet():
+                            d.write_peers(peer)
+                        new_raw = fs.files.get('peers.json')
+                        new_list = json.loads(new_raw.decode())
+                    except Crash:
+                        raise
+                    except Exception as e:
+                        res.violate(PROP, 'C19/peer-file-write-raised', 'recording a greeted peer raised %s%s' % (
+                            type(e).__name__, ' (the peer file on disk was damaged: %s)' % op['damaged'] if damaged is not None else ''))
+                        fs.restore(orig_snap)
+                        break
                     nb, log = fs.boundary, list(fs.log)
-                    new_raw = fs.files.get('peers.json')
-                    new_list = json.loads(new_raw.decode())
                     want = [[a['host'], a['port'], 'OUTGOING']] + [r[:3] for r in (old_list or []) if r[:3] != [a['host'], a['port'], 'OUTGOING']]
                     if [r[:3] for r in new_list] != want[:100] or len(new_list) > 100:
                         res.violate(PROP, 'C19/peer-file-content-wrong', 'peer file holds %d entries; expected the greeted peer first, '
@@ -382,7 +401,8 @@ def execute(script):
                         fs.crash_at = pt
                         fs.reset_boundaries()
                         try:
-                            d.write_peers(peer)
+                            with env.quiet():
+                                d.write_peers(peer)
                             raise RuntimeError('harness: crash point not reached')
                         except Crash:
                             pass
@@ -392,6 +412,8 @@ def execute(script):
                         ok = False
                         if raw is None:
                             ok = old_list is None
+                        elif damaged is not None and raw == damaged:
+                            ok = True       # the damaged file of the earlier session, untouched so far
                         else:
                             try:
                                 got = json.loads(raw.decode())
